@@ -33,6 +33,9 @@ type SpecEnv struct {
 	at    *ssa.BasicBlock // for local-variable lookup (loop header)
 	beforeIdx int         // >0: program-point assertion before instruction index beforeIdx of block at
 	depth int
+	// contract of a closure applied at a call site: the closure and the cells of its captured variables
+	freeFn *ssa.Function
+	free   []Value
 }
 
 type specErr struct{ msg string }
@@ -396,6 +399,14 @@ func (se *SpecEnv) ident(x *SIdent) (Value, types.Type) {
 			return v, t
 		}
 	}
+	if se.freeFn != nil {
+		for i, fv := range se.freeFn.FreeVars {
+			if fv.Name() == x.Name && i < len(se.free) {
+				pt := derefType(fv.Type())
+				return se.ex.load(se.cur, se.free[i], pt), pt
+			}
+		}
+	}
 	// ghost variables
 	if se.pkg != nil {
 		if a := se.ex.ghostAddr(se.pkg, x.Name); a != nil {
@@ -644,6 +655,13 @@ func (se *SpecEnv) callExpr(x *SCall) (Value, types.Type) {
 				return And(Or(Eq(p, IntLit(0)), Select(se.ex.alive(se.cur), p)), se.ex.sliceShape(v)), boolT
 			}
 			return Select(se.ex.alive(se.cur), v), boolT
+		case "closed":
+			// closed(ch): close() has been called on channel ch
+			v, t := se.evalTerm(x.Args[0])
+			if _, isChan := types.Unalias(t).Underlying().(*types.Chan); !isChan {
+				se.fail(x, "closed() of non-channel %s", t)
+			}
+			return Select(se.ex.comp(se.cur, chanClosedComp, aliveSort), v), boolT
 		case "indexin":
 			// indexin(s, x): for a list s returned by idset Members(), the position of element x in it
 			v, t := se.evalTerm(x.Args[0])
